@@ -208,6 +208,7 @@ type MonC09 struct {
 	cl       *committedLog
 	fold     *confFold
 	accepted []uint64 // per node: index of the newest snapshot it accepted in this incarnation
+	handed   []uint64 // per node: index of the newest snapshot handed to the application for installation in this incarnation
 	shared   bool
 }
 
@@ -217,6 +218,7 @@ func (m *MonC09) Init(w *World) {
 	m.cl = newCommittedLog()
 	m.fold = newConfFold(w.Sc)
 	m.accepted = make([]uint64, len(w.Nodes))
+	m.handed = make([]uint64, len(w.Nodes))
 }
 func (m *MonC09) Clone() Monitor {
 	m.shared = true
@@ -225,13 +227,16 @@ func (m *MonC09) Clone() Monitor {
 }
 func (m *MonC09) own() {
 	if m.shared {
-		m.cl, m.fold, m.accepted, m.shared = m.cl.clone(), m.fold.clone(), append([]uint64(nil), m.accepted...), false
+		m.cl, m.fold, m.accepted, m.handed, m.shared = m.cl.clone(), m.fold.clone(), append([]uint64(nil), m.accepted...), append([]uint64(nil), m.handed...), false
 	}
 }
 func (m *MonC09) History(b []byte) []byte {
 	b = m.cl.history(b)
 	b = m.fold.history(b)
 	for _, a := range m.accepted {
+		b = binary.AppendUvarint(b, a)
+	}
+	for _, a := range m.handed {
 		b = binary.AppendUvarint(b, a)
 	}
 	return b
@@ -306,9 +311,20 @@ func (m *MonC09) OnEvent(w *World, rec *StepRec) []*Violation {
 			}
 		}
 	}
+	// a snapshot is handed to the application for installation once, and only above the commit
+	// index the node had before it accepted it (i.e. above every snapshot handed out before)
+	if rd := rec.Ready; rd != nil && !raft.IsEmptySnap(rd.Snapshot) && !rec.Restarted {
+		sidx := rd.Snapshot.GetMetadata().GetIndex()
+		if sidx <= m.handed[i] {
+			out = append(out, &Violation{"C09", "installed-once-above-commit", fmt.Sprintf("node %d was handed snapshot %d for installation after snapshot %d had been handed to it (a snapshot at or below the commit index is not installed)", n.ID, sidx, m.handed[i])})
+		}
+		m.own()
+		m.handed[i] = max(m.handed[i], sidx)
+	}
 	// an accepted snapshot stays the node's log base (until an even newer one replaces it)
 	if rec.Restarted {
 		m.own()
+		m.handed[i] = 0
 		m.accepted[i] = 0 // an unpersisted snapshot may be lost in a crash
 	} else {
 		if post.UnstableSnapshot != nil {
